@@ -18,11 +18,12 @@ func init() { register(&Spec{ID: "C14", Targets: []load.Target{load.Linux, load.
 
 func runC14(c *core.Ctx) {
 	runFixtures(c, "drop", "nilguard")
-	c.Explain("Structural clauses of C14 decided from source; 'inject a fault at each store call index' becomes 'follow the error edge of each fallible call': (R14.1) the []OpResult of every Transaction.Commit in packages keyvalue/mem is not discarded: it is returned to a caller that reads it, or each element's Err is read and reaches a return; (R14.2) for every fallible call in package keyvalue (Store/Transaction/FileRecord/blob calls, save, setFile, getFile…, on both the serial-fallback and TransactionStore paths) the error is returned, wrapped or handed on along every failing path (accepted: errors.Is(ErrNotExist/ErrExist) look-up idioms — those are not store failures —, closing read-only handles, aborting on an error path); (R14.3a) the pointer/interface result that came with a non-nil error is never invoked or dereferenced on that path; (R14.3b) a struct field assigned together with an error field from one call is never invoked without a dominating nil-test of it or of the paired error; (R14.4) each Go-level Transaction implementation stores the store's Get/Set error into the recorded OpResult.Err. (R14.5) a function of package keyvalue that answers a list of paths with slices allocated as make(T, len(paths)) returns those slices on every path: a nil or shorter slice on the store-failure path makes the callers, which index by path, panic instead of returning the error. NOT claimed: that a fresh look-up shows exactly what the store holds after a fault, hang-freedom, panics from index expressions on result slices, examples/s3 (not loadable offline).")
+	c.Explain("Structural clauses of C14 decided from source; 'inject a fault at each store call index' becomes 'follow the error edge of each fallible call': (R14.1) the []OpResult of every Transaction.Commit in packages keyvalue/mem is not discarded: it is returned to a caller that reads it, or each element's Err is read and reaches a return; (R14.2) for every fallible call in package keyvalue (Store/Transaction/FileRecord/blob calls, save, setFile, getFile…, on both the serial-fallback and TransactionStore paths) the error is returned, wrapped or handed on along every failing path (accepted: errors.Is(ErrNotExist/ErrExist) look-up idioms — those are not store failures —, closing read-only handles, aborting on an error path); (R14.3a) the pointer/interface result that came with a non-nil error is never invoked or dereferenced on that path; (R14.3b) a struct field assigned together with an error field from one call is never invoked without a dominating nil-test of it or of the paired error; (R14.4) each Go-level Transaction implementation stores the store's Get/Set error into the recorded OpResult.Err. (R14.5) a function of package keyvalue that answers a list of paths with slices allocated as make(T, len(paths)) returns those slices on every path: a nil or shorter slice on the store-failure path makes the callers, which index by path, panic instead of returning the error. (R14.6) where an operation stores a record under a new name and deletes it under the old one in one transaction (Rename of a file), the store is issued with a handler that aborts the transaction when the store's result carries an error — with a plain Set the serial fallback runs the delete although the store was refused, and the file exists under neither name. NOT claimed: that a fresh look-up shows exactly what the store holds after a fault, hang-freedom, panics from index expressions on result slices, examples/s3 (not loadable offline).")
 	c.Assume("A1: a Store/Transaction/FileRecord implementation reports failure through its error result", "A6: partial correctness")
 	c.RuleDoc("R14.1", "commit results are read")
 	c.RuleDoc("R14.2", "no store-layer error dropped on any failing path in package keyvalue")
 	c.RuleDoc("R14.3", "no use of a value that came with an error (call results and paired fields)")
+	c.RuleDoc("R14.6", "in a move, the delete of the old name is conditional on the store of the new one")
 	c.RuleDoc("R14.5", "per-path result slices keep the input's length on the failure path")
 	c.RuleDoc("R14.4", "transaction implementations record store errors")
 	for _, p := range c.Progs {
@@ -33,6 +34,7 @@ func runC14(c *core.Ctx) {
 			r14Paired(c, p)
 			r14Record(c, p)
 			r14ParallelShape(c, p)
+			r14ConditionalMove(c, p)
 		}
 	}
 	c.Floor("R14.1", 4)
@@ -40,6 +42,7 @@ func runC14(c *core.Ctx) {
 	c.Floor("R14.3", 1)
 	c.Floor("R14.4", 4)
 	c.Floor("R14.5", 3)
+	c.Floor("R14.6", 1)
 }
 
 func pkgFuncs(p *load.Program, rel string) []*ssa.Function {
@@ -594,6 +597,67 @@ func r14ParallelShape(c *core.Ctx, p *load.Program) {
 			}
 			c.Check(bad == "", "R14.5", key, p.Pos(fn.Pos()), "every return hands back the slice allocated with the input's length",
 				fmt.Sprintf("%s returns, at %s, a slice that is not the one allocated with len(paths): callers index the results by path, so on that path (the store could not be reached) they panic with index out of range instead of returning the store's error", fname(fn), bad))
+		}
+	}
+}
+
+
+// r14ConditionalMove (R14.6)
+func r14ConditionalMove(c *core.Ctx, p *load.Program) {
+	sh := findKVShape(p)
+	if sh == nil {
+		c.Hard("anchor: keyvalue.FS shape")
+		return
+	}
+	var names []string
+	for n := range sh.methods {
+		names = append(names, n)
+	}
+	sort.Strings(names)
+	for _, name := range names {
+		fn := sh.methods[name]
+		if fn.Object() == nil || !fn.Object().Exported() {
+			continue
+		}
+		for i, mp := range movePairs(sh, fn) {
+			key := fmt.Sprintf("(*keyvalue.FS).%s|move#%d-conditional", name, i+1)
+			// the store call carries a handler argument (not nil) whose body calls Abort below a test of the result's Err
+			ok := false
+			for _, a := range mp.store.Call.Args {
+				mi, isMI := a.(*ssa.MakeInterface)
+				if !isMI {
+					continue
+				}
+				var hf *ssa.Function
+				switch x := mi.X.(type) {
+				case *ssa.MakeClosure:
+					hf, _ = x.Fn.(*ssa.Function)
+				case *ssa.ChangeType:
+					if mc, ok2 := x.X.(*ssa.MakeClosure); ok2 {
+						hf, _ = mc.Fn.(*ssa.Function)
+					} else if f, ok2 := x.X.(*ssa.Function); ok2 {
+						hf = f
+					}
+				case *ssa.Function:
+					hf = x
+				}
+				if hf == nil || hf.Blocks == nil {
+					continue
+				}
+				ssax.Instrs(hf, func(ins ssa.Instruction) {
+					cl, isCall := ins.(*ssa.Call)
+					if !isCall || !cl.Call.IsInvoke() || cl.Call.Method.Name() != "Abort" {
+						return
+					}
+					for _, f := range ssax.FactsAtInstr(cl) {
+						if x, eq, isNil := ssax.NilTest(f.Cond); isNil && eq != f.Val && ssax.IsErrorType(x.Type()) {
+							ok = true
+						}
+					}
+				})
+			}
+			c.Check(ok, "R14.6", key, p.Pos(mp.store.Pos()), "the store of the new name carries a handler that aborts the transaction when the store failed",
+				fmt.Sprintf("%s stores the record under the new name with a plain Set and then deletes the old name: on a store without transactions (serial fallback) the delete runs although the store of the new name was refused — Rename returns an error, but the file now exists under neither name and its contents are lost", fname(fn)))
 		}
 	}
 }
